@@ -833,6 +833,18 @@ def mutate(ex, st, v, how, n, sym=None):
     """records the frame obligation for a mutated matrix argument and updates
     its symmetry typestate"""
     if is_matrix(st, v):
+        src = mat(st, v).f.get('unvalidated')
+        if src:
+            # a caller-supplied start point for a cone variable was copied
+            # in and is now being updated although misc.max_step was never
+            # applied to it (its cone membership was not tested)
+            mat(st, v).f['unvalidated'] = None
+            ex.oblige(st, 'start-point-validated', False, n,
+                      'the start point copied from %s is tested with '
+                      'misc.max_step before it is used (%s at line %s)' % (
+                          src, how, getattr(n, 'lineno', 0)),
+                      extra={'prop': {'conelp': 'C01', 'coneqp': 'C03'}.get(
+                          ex.fname, 'C01')})
         L.on_mutate(ex, st, v, how, n)
         mat(st, v).f['sym'] = sym if sym is not None else z3.IntVal(0)
         if 'val' in mat(st, v).f and how not in (
@@ -887,6 +899,13 @@ def blas_copy(ex, st, args, kwargs, n):
     mutate(ex, st, y, 'blas.copy', n, s)
     if alg.enabled(ex) and full:
         alg.setval(st, y, alg.valof(st, x))
+    if is_matrix(st, x) and is_matrix(st, y):
+        own = str(st.heap[x.oid].meta.get('owner', ''))
+        if own.startswith('INPUT:') and ("start['s']" in own or
+                                         "start['z']" in own or
+                                         "initvals['s']" in own or
+                                         "initvals['z']" in own):
+            mat(st, y).f['unvalidated'] = own[6:]
     return None
 
 
@@ -1186,6 +1205,14 @@ def misc_max_step(ex, st, args, kwargs, n):
     r = ex.fresh_real('max_step')
     if is_matrix(st, x):
         mat(st, x).f['last_max_step'] = r.t
+        if mat(st, x).f.get('unvalidated'):
+            ex.oblige(st, 'start-point-validated', True, n,
+                      'the start point copied from %s is tested with '
+                      'misc.max_step before it is used' % mat(st, x).f[
+                          'unvalidated'],
+                      extra={'prop': {'conelp': 'C01', 'coneqp': 'C03'}.get(
+                          ex.fname, 'C01')})
+            mat(st, x).f['unvalidated'] = None
     return r
 
 
